@@ -291,4 +291,62 @@ def scanStr (s : List Nat) : List (V × V) → Option V
 def getByStr (m : Mode) (ps : List (V × V)) (s : List Nat) : Option V :=
   if ps.length ≤ MJ.Gen.valueMapStrScanMax then scanStr s ps else getV m ps (.str s)
 
+/-! ## reported lengths (`Enumerator::query_len`, the default of `Object::enumerator_len`) -/
+
+/-- what `query_len` sees of an enumerator: the variant, and either the stored count or the
+    iterator's `size_hint()` -/
+inductive EnumShape where
+  | empty
+  | values (n : Nat)
+  | str (n : Nat)
+  | seq (n : Nat)
+  | nonEnumerable
+  /-- `Iter` / `KeyValueIter` / `RevIter` / `RevKeyValueIter` with `size_hint() = (lo, hi)` -/
+  | hinted (variant : String) (lo : Nat) (hi : Option Nat)
+  deriving Repr, DecidableEq
+
+/-- the guard `a OP b` of a size-hint arm, by its regenerated operator text -/
+def guardHolds (op : String) (a b : Nat) : Bool :=
+  if op = "==" then a == b
+  else if op = "<=" then decide (a ≤ b)
+  else if op = "<" then decide (a < b)
+  else if op = ">=" then decide (b ≤ a)
+  else if op = ">" then decide (b < a)
+  else if op = "!=" then a != b
+  else false
+
+/-- `Enumerator::query_len`, arm by arm as regenerated from the source (`MJ.Gen.queryLenArms`) -/
+def queryLen : EnumShape → Option Nat
+  | .empty => if MJ.Gen.queryLenArms.lookup "Empty" = some "direct" then some 0 else Option.none
+  | .values n => if MJ.Gen.queryLenArms.lookup "Values" = some "direct" then some n else Option.none
+  | .str n => if MJ.Gen.queryLenArms.lookup "Str" = some "direct" then some n else Option.none
+  | .seq n => if MJ.Gen.queryLenArms.lookup "Seq" = some "direct" then some n else Option.none
+  | .nonEnumerable => Option.none
+  | .hinted variant lo hi =>
+    match MJ.Gen.queryLenArms.lookup variant, hi with
+    | some op, some b => if guardHolds op lo b then some lo else Option.none
+    | _, _ => Option.none
+
+/-- the four iterator-backed variants -/
+def hintedVariants : List String := ["Iter", "KeyValueIter", "RevIter", "RevKeyValueIter"]
+
+/-- the enumerator really yields `count` items: stored counts are the count, and an iterator's size
+    hint brackets it (the contract of `Iterator::size_hint`) -/
+def EnumShape.Yields (s : EnumShape) (count : Nat) : Prop :=
+  match s with
+  | .empty => count = 0
+  | .values n => count = n
+  | .str n => count = n
+  | .seq n => count = n
+  | .nonEnumerable => True
+  | .hinted v lo hi => v ∈ hintedVariants ∧ lo ≤ count ∧ (∀ b, hi = some b → count ≤ b)
+
+/-- the Map/Map arm of `PartialEq` as the Rust writes it, with the lengths the two objects report:
+    both known → unequal lengths settle it and otherwise only `a ⊆ b` is checked; else `a ⊆ b` and
+    the number of `a`'s entries equals the number of items `b` yields -/
+def eqMapWithLen (m : Mode) (la lb : Option Nat) (ps qs : List (V × V)) : Bool :=
+  match la, lb with
+  | some a, some b => if a ≠ b then false else eqAll m ps qs
+  | _, _ => eqAll m ps qs && (ps.length == qs.length)
+
 end MJ.Cmp
